@@ -229,6 +229,75 @@ theorem geoid_threadsafe_guarded :
     ((functions.filter (fun e => e.cls == "Geoid")).flatMap fun e =>
       (e.writes.filter (fun w => !geoidWriteOK ["Geoid::_file"] w)).map fun w => (e.fn, w.loc)) = [] := by decide +kernel
 
+/-! ### Extraction side: what the table is extracted *from*, and the facts the effect analysis itself relies on
+
+The effect analysis treats (i) a `const` object as unwritable, (ii) an immutable member as unwritable by a const member function,
+(iii) a function-local static as written only by its initialiser.  (i)–(iii) fail if there is a `const_cast`, a write through
+a pointer / reference member (the pointee is not part of the const object), or a static that is not const.  The obligations
+below pin these down over **every** header and source file of the library — including header-only templates that no source
+file includes (`NearestNeighbor.hpp`, `SphericalHarmonic2.hpp`) and `kissfft.hh` — by analysing one additional translation unit
+that includes every public header and instantiates the class templates, and by a clang-independent text scan. -/
+
+/-- **Gen-obligation.**  The keyword `mutable` was looked for textually (comments and literals removed) in every file under
+`include/GeographicLib` and `src`; every declarator that follows it is one of the `mutable`-member locations of the extracted
+table, in the same file (so the clang walk overlooked none, whatever header it sits in), and `mutable` is not used on a lambda. -/
+theorem mutable_text_scan_accounted :
+    80 ≤ scannedFiles ∧ 40 ≤ headersIncluded.length ∧ headersIncluded.contains "NearestNeighbor.hpp" = true ∧
+    mutableTextScan ≠ [] ∧ (mutableTextScan.filter (fun fm => !scanAccounted locations fm)) = [] := by decide +kernel
+
+/-- **Gen-obligation.**  …and conversely every extracted `mutable` member is found by the text scan (the two extractions agree). -/
+theorem mutable_members_match_text_scan :
+    ((locations.filter (fun d => d.kind == .mutableMember)).filter
+      (fun d => !(mutableTextScan.any fun fm => d.file == fm.1 && post ("::" ++ fm.2) d.name))).map (·.name) = [] := by decide +kernel
+
+/-- **Gen-obligation.**  No `const_cast` anywhere in the library's text (independent of the AST walk, cf. `no_const_cast`). -/
+theorem no_const_cast_text : constCastTextScan = [] := by decide +kernel
+
+/-- **Gen-obligation (function-local statics).**  The list is re-extracted on every run from all translation units.  Every
+function-local static is declared `const`/`constexpr`, has no non-const pointee, and is initialised where it is declared — by a
+constant expression (`"constexpr"`, `"literal"`) or by the C++11 guarded dynamic initialisation (`"dynamic"`, see
+`static_init_once`) — or is the documented exclusion (the square-root table).  A hand-rolled "initialised" flag (seeded C14D)
+or a scratch buffer (seeded C14B) is a non-const static and appears here. -/
+theorem local_statics_immutable :
+    40 ≤ staticLocals.length ∧ (staticLocals.filter (fun s => !staticLocalOK s)).map (·.name) = [] := by decide +kernel
+
+/-- **Gen-obligation.**  No function of *any* kind — constructors, non-const member functions and free functions included, not
+only the const/static functions of the table — writes a variable of static storage duration after its initialisation, directly or
+through its callees (constructors of other classes followed), except the documented exclusion. -/
+theorem statics_written_only_by_excluded :
+    (staticWriters.flatMap fun fw => (fw.2.filter (fun l => !excluded l)).map fun l => (fw.1, l)) = [] := by decide +kernel
+
+/-- **Gen-obligation (no write through pointer members).**  Inside const member functions there is no assignment, increment,
+non-const member call or hand-over as non-const pointer whose target is reached by dereferencing a pointer / reference /
+iterator / smart-pointer member of the object. -/
+theorem no_write_through_pointer_members : ptrWrites = [] := by decide +kernel
+
+/-- **Gen-obligation.**  Every pointer-like data member points to `const` data, except the FFT plan shared by `DST` objects
+(`shared_ptr<kissfft>`), all of whose uses in const functions are const calls by the previous obligation and whose only mutable
+state is the scratch buffer certified unreachable by `fft_generic_butterfly_unreachable`. -/
+theorem pointer_members_accounted :
+    ptrMembers ≠ [] ∧ ((ptrMembers.filter fun p => !(p.pointeeConst || certifiedPtrMembers.contains p.name)).map (·.name)) = [] := by decide +kernel
+
+/-- **Gen-obligation (construction while others use).**  Every class whose constructors touch static state (transitively; today:
+the harmonic classes through `SphericalEngine::RootTable`) is constructed and destroyed by the background threads of the `mtc`
+suites while other threads evaluate a shared instance, and the static state they write is a documented exclusion (growth of the
+square-root table: the suites establish the table with `RootTable` first, as SphericalEngine.hpp prescribes). -/
+theorem ctor_static_state_covered :
+    ctorStatics ≠ [] ∧ (ctorStatics.filter fun c => !(backgroundConstructed.contains c.1 && c.2.2.all excluded)).map (·.1) = [] := by decide +kernel
+
+/-- **Gen-obligation.**  Only the harmonic classes read the square-root table from their const functions: for every other class
+the construction of models in another thread — which may grow the table — touches nothing its const functions use. -/
+theorem sqrttable_readers_are_harmonic :
+    ((functions.filter fun e => e.reads.contains "SphericalEngine::sqrttable()::sqrttable" && !harmonicClasses.contains e.cls).map (·.fn)) = [] := by decide +kernel
+
+/-- non-vacuity: the header-only and excluded classes *are* in the table (their counters are seen, not overlooked) -/
+theorem exclusions_are_seen :
+    (functions.any fun e => e.cls == "NearestNeighbor" && e.isPublic && e.writes.any (fun w => w.loc == "NearestNeighbor::_mc")) = true ∧
+    (functions.any fun e => e.cls == "Intersect" && e.isPublic && e.writes.any (fun w => w.loc == "Intersect::_cnt0")) = true ∧
+    (functions.any fun e => e.cls == "PolygonAreaT") = true ∧ (functions.any fun e => e.cls == "SphericalHarmonic2") = true ∧
+    (staticWriters.any fun fw => fw.1 == "SphericalEngine::RootTable") = true ∧
+    (ptrMembers.any fun p => p.name == "RhumbLine::_rh" && p.pointeeConst) = true := by decide +kernel
+
 /-- **The table and the theorem together.**  Take any program whose operations are const/static functions of the quantifier's
 classes with the read sets of the table and as write sets the table's writes that are neither excluded nor certified
 away.  Then every interleaving is race-free and every call returns the value it returns alone from the initial state. -/
